@@ -170,6 +170,37 @@ CLAIMED.update({
                      'retries short writes. Does NOT decide the position-chain arithmetic.', ref='5 (C03)'),
 })
 
+CLAIMED.update({
+    'C02': dict(cat='other', tech='provenance of header/trailer bytes and encoder capacities, per-block advance/fold pairing and write-back (must-store) rule in collect(), who-writes rule and formula of the combined CRC, finite-domain tabulation of the dummy second table from the IR, compile-time witnesses',
+                text='Decides: header = "BZh" + (\'0\'+level), trailer = 0x177245385090 + combined_crc msb first; every '
+                     'encoder_init/encoder_alloc_size site (both collecting tasks) and the input chunk use level*100000; in '
+                     'collect() every consumed input byte is folded into the block CRC in the same step, the single un-get '
+                     'restores the CRC saved before that fold, an advanced copy of the run state is written back on every '
+                     'path to the exit; combined_crc is reset per stream and updated only by do_reorder() as rotl1(c) ^ ~raw, '
+                     'with the same inversion transmit() applies; the dummy second table of single-table blocks is a complete '
+                     'prefix code with lengths 1..20 for all 256 alphabet sizes; selector/table buffers are sized for the '
+                     'format maxima. Does NOT decide table correctness of real blocks, the primary index or the N*100000 '
+                     'bound (C04 arithmetic), nor that libbz2 decodes the output.', ref='5 (C02)'),
+    'C06': dict(cat='other', tech='finite-domain tabulation of delta/selector steps and the header automaton, field-width and limit comparisons read from the IR of retrieve(), table equivalence (rand_table, crc_table), compile-time witnesses, path-sensitive size test in do_reorder()',
+                text='Decides that the decoder\'s hard limits are not stricter than the format and that its tables agree with '
+                     'it: delta/selector steps equal the reference rule on all cases; the header automaton accepts every '
+                     'valid header sequence (concatenated streams of any level, byte alignment, trailing data); field widths '
+                     '1/24/16/16/3/15/5; 2..6 tables; 1..32767 selectors with surplus clamped no lower than 18001; primary '
+                     'index rejected only when >= block size; the declared-size test uses each stream\'s own level; '
+                     'rand_table equals the reference copies under tests/, crc_table the CRC-32/BZIP2 table; buffers hold '
+                     'the format maxima. Does NOT decide acceptance of arbitrary valid streams (decoding arithmetic).',
+                ref='5 (C06)'),
+    'C08': dict(cat='other', tech='SSA definite-assignment rule with constant-phi edge threading, re-entry merge rule for resumable functions, compile-time witnesses, index-closure by structural upper bounds (table maxima, store-side field invariants), symbolic queue capacities, guard rules',
+                text='Decides: no local is read before assignment on any path of any function; locals live across suspension '
+                     'points of retrieve()/emit() are re-established; every buffer whose size is a function of format '
+                     'constants is large enough; every index into a constant table (L/R/RH/RL/table, crc_table, rand_table, '
+                     'lg_table, big_dfa columns, ...) is provably below its dimension, the scanner never indexes mini_dfa '
+                     'in state ACCEPT; queue capacities cover the token totals; run length and its shift count are bounded; '
+                     'the primary index is < block size before tt[] is indexed; input blocks are freed only by the holder '
+                     'of the last reference. NO claim about indices computed from stream contents (perm, base, tt, divbwt '
+                     'stacks), other shifts or signed overflow.', ref='5 (C08)'),
+})
+
 NA = {
     'C01': 'round-trip equality is a numerical fact about RLE/BWT/MTF/Huffman and its inverse over all byte strings; '
            'no sound static argument in reach bounds it (DESIGN.md section 6); its shape-level fragments are decided '
